@@ -61,8 +61,9 @@ class ConcreteSrc:
 class Item:
     """One TLS record on the wire."""
 
-    def __init__(self, from_server, data, app=None, kind=""):
+    def __init__(self, from_server, data, app=None, kind="", plain=None):
         self.from_server, self.data, self.app, self.kind = from_server, data, app, kind
+        self.plain = plain      # handshake plaintext carried by an encrypted handshake record
 
 
 def build(cfg, src):
@@ -158,7 +159,7 @@ def build(cfg, src):
         def finished(from_server):
             conn.start_encryption(from_server)
             f = T.hs(20, src.bytes("finished_%s" % ("s" if from_server else "c"), fin_len))
-            return Item(from_server, conn.record(from_server, 0x16, f), kind="enc-Finished")
+            return Item(from_server, conn.record(from_server, 0x16, f), kind="enc-Finished", plain=f)
         if abbreviated:
             items.append(Item(True, plain_rec(True, 0x16, sh), kind="ServerHello"))
             items.append(Item(True, ccs, kind="CCS"))
